@@ -54,7 +54,7 @@ func init() {
 
 func (p *c19) ID() string { return "C19" }
 func (p *c19) Rule() string {
-	return "corpus: every .vuego file under the repository and every ```html block of docs/*.md and README.md x 5 formatter option sets; attr: every string of <=3 (thorough <=4) tokens over {& amp; # \" ' < > space newline a 1 ; = |} as an attribute value x 3 source quotings, host element rotating over block/inline-in-p/void/table cell/pre child/script; text: every string of <=3 (thorough <=4) tokens over {{{ }} &lt; &gt; &amp; & < > a b space newline &nbsp; amp; lt; #60;} x 7 containers (p, div with element sibling, pre, textarea, script, span in li, td); struct: 15 parents (incl. body and p of a full document) x every sequence of <=2 (thorough <=3) children over 13 child kinds x 3 separators x edge whitespace on/off; meta: 8 doctype spellings x 9 front-matter blocks (--- inside values, CRLF, block scalars, empty, at end of file) x 6 bodies x 4 gaps between front-matter and body; gen: seeded random fragments, table-scoped fragments and full documents over block/inline/void/table/raw-text/rcdata/pre/custom/template/svg/noscript/iframe elements, directives as plain attributes (incl. repeated :require), attribute values with quotes/entities/operators/newlines/blank runs in 5 source quotings, mustaches with < > & (raw and entity-escaped), comments, front-matter, doctypes, CRLF files, 1 in 6 with non-default formatter options. Every case: y1=Format(src), y2=Format(y1); judged: no error, y2==y1, DOM(y1)~DOM(src), front-matter and doctype bytes. non-trivial = the source body parses to at least one element or text node; distinct by (source, options)"
+	return "corpus: every .vuego file under the repository and every ```html block of docs/*.md and README.md x 5 formatter option sets; attr: every string of <=3 (thorough <=4) tokens over {& amp; # \" ' < > space newline a 1 ; = |} as an attribute value x 3 source quotings, host element rotating over block/inline-in-p/void/table cell/pre child/script; text: every string of <=3 (thorough <=4) tokens over {{{ }} &lt; &gt; &amp; & < > a b T space newline &nbsp; amp; lt; #60;} x 7 containers (p, div with element sibling, pre, textarea, script, span in li, td); struct: 15 parents (incl. body and p of a full document) x every sequence of <=2 (thorough <=3) children over 13 child kinds x 3 separators x edge whitespace on/off; meta: 8 doctype spellings x 9 front-matter blocks (--- inside values, CRLF, block scalars, empty, at end of file) x 6 bodies x 4 gaps between front-matter and body; gen: seeded random fragments, table-scoped fragments and full documents over block/inline/void/table/raw-text/rcdata/pre/custom/template/svg/noscript/iframe elements, directives as plain attributes (incl. repeated :require), attribute values with quotes/entities/operators/newlines/blank runs in 5 source quotings, mustaches with < > & (raw and entity-escaped), comments, front-matter, doctypes, CRLF files, 1 in 6 with non-default formatter options. Every case: y1=Format(src), y2=Format(y1); judged: no error, y2==y1, DOM(y1)~DOM(src), front-matter and doctype bytes. non-trivial = the source body parses to at least one element or text node; distinct by (source, options)"
 }
 
 // ---------------------------------------------------------------- corpus
@@ -206,7 +206,7 @@ func c19AttrHostSrc(host, attr string) string {
 	}
 }
 
-var c19TextTokens = []string{"{{", "}}", "&lt;", "&gt;", "&amp;", "&", "<", ">", "a", "b", " ", "\n", "&nbsp;", "amp;", "lt;", "#60;"}
+var c19TextTokens = []string{"{{", "}}", "&lt;", "&gt;", "&amp;", "&", "<", ">", "a", "b", "T", " ", "\n", "&nbsp;", "amp;", "lt;", "#60;"}
 var c19TextHosts = []string{"p", "div-block", "pre", "textarea", "script", "span-in-li", "td"}
 
 func c19TextHostSrc(host, t string) string {
@@ -447,7 +447,7 @@ var c19Mustaches = []string{
 // mustache: to the HTML parser that is a tag, the source then simply contains a
 // <b ...> element with odd attributes or a stray end tag, and an unclosed
 // formatting element can make the DOM unserialisable - nested forms and the like.)
-var c19MustachesRisky = []string{"{{ a<1 }}", "{{ a &lt;b }}", "{{ \"&amp;lt;\" }}", "{{ \"&lt;/p&gt;\" }}", "{{ \"&lt;/i&gt;\" }}", "{{ x &amp;amp; y }}", "{{ \"&amp;#169;\" }}"}
+var c19MustachesRisky = []string{"{{ a<1 }}", "{{ a &lt;b }}", "{{ i &lt;Total }}", "{{ Page&lt;Pages ? \"next\" : \"last\" }}", "{{ \"&amp;lt;\" }}", "{{ \"&lt;/p&gt;\" }}", "{{ \"&lt;/i&gt;\" }}", "{{ x &amp;amp; y }}", "{{ \"&amp;#169;\" }}"}
 var c19AttrNames = []string{"class", "id", "title", "href", "data-x", "data-json", "style", "v-if", "v-else-if", "v-for", "v-show", "v-html", "v-text", "v-model",
 	":class", ":style", ":href", ":disabled", ":key", "@click", "@submit.prevent", "v-bind:title", "v-on:click", "v-slot:item", "#default", "[v-if]", "[:data]", "include", "name", "alt", "placeholder", "aria-label", "CamelCase", "x:y"}
 var c19BareAttrs = []string{"v-else", "v-once", "disabled", "checked", "required", "v-keep", "hidden", "v-cloak"}
